@@ -55,7 +55,7 @@ Theorem C10_ingress_file_name_refuted :
 Proof. exact ingress_file_name_refuted. Qed.
 Print Assumptions C10_ingress_file_name_refuted.
 
-(* REFUTED (F95): DNS-legal names exist whose file names exceed NAME_MAX (255 bytes): the file cannot be
+(* REFUTED (F97): DNS-legal names exist whose file names exceed NAME_MAX (255 bytes): the file cannot be
    created at all (the real LocalManager then ends the process).  All theorems below are about the
    naming schemes as functions on strings; on the real file system they apply to names that fit. *)
 Theorem C10_file_name_length_refuted :
